@@ -116,3 +116,53 @@ def AelOK (fr : Nat) : List Active → List Active → Prop
 def WF (a : Active) : Prop := (a.windDx = 1 ∨ a.windDx = -1) ∧ (getPolyType a = 0 ∨ getPolyType a = 1)
 
 end Model
+
+namespace Model
+open Gen
+
+/-- what `intersectEdges` does to the output structure (closed edges) -/
+inductive IxAction where
+  | none | localMax | localMaxMin | swapBothHot | passLeftToRight | passRightToLeft | localMin
+  deriving DecidableEq, Repr, Inhabited
+
+/-- the fill-rule normalisation of a count used by `intersectEdges`
+    (`Positive: wc`, `Negative: -wc`, otherwise `|wc|`) -/
+def normCount (fr : Nat) (wc : Int) : Int :=
+  if fr = C_Positive then wc else if fr = C_Negative then -wc else (wc.natAbs : Int)
+
+/-- the decision part of `intersectEdges(ae1, ae2, pt)` for two closed, un-joined edges: the counts
+    after the update, the action taken and which of the two edges are hot afterwards.
+    `hot1/hot2` = `isHotEdge`, `front1` = `isFront(ae1)`, `same` = `ae1.outrec == ae2.outrec`. -/
+def intersectDecide (ct fr : Nat) (e1 e2 : Active) (hot1 hot2 front1 same : Bool) :
+    Active × Active × IxAction × Bool × Bool :=
+  let r := intersectWind fr e1 e2
+  let a1 := r.1
+  let a2 := r.2
+  let old1 := normCount fr a1.windCount
+  let old2 := normCount fr a2.windCount
+  let is01_1 := old1 = 0 ∨ old1 = 1
+  let is01_2 := old2 = 0 ∨ old2 = 1
+  if (!hot1 && !decide is01_1) || (!hot2 && !decide is01_2) then (a1, a2, .none, hot1, hot2)
+  else if hot1 && hot2 then
+    if !decide is01_1 || !decide is01_2 || (getPolyType a1 != getPolyType a2 && ct != C_Xor) then
+      (a1, a2, .localMax, false, false)
+    else if front1 || same then (a1, a2, .localMaxMin, true, true)
+    else (a1, a2, .swapBothHot, true, true)
+  else if hot1 then (a1, a2, .passLeftToRight, false, true)
+  else if hot2 then (a1, a2, .passRightToLeft, true, false)
+  else
+    let w1 := normCount fr a1.windCount2
+    let w2 := normCount fr a2.windCount2
+    if getPolyType a1 != getPolyType a2 then (a1, a2, .localMin, true, true)
+    else if old1 = 1 ∧ old2 = 1 then
+      let mk : Bool :=
+        if ct = C_Union then !(decide (w1 > 0) && decide (w2 > 0))
+        else if ct = C_Difference then
+          (getPolyType a1 == C_Clip && decide (w1 > 0) && decide (w2 > 0)) ||
+          (getPolyType a1 == C_Subject && decide (w1 ≤ 0) && decide (w2 ≤ 0))
+        else if ct = C_Xor then true
+        else !(decide (w1 ≤ 0) || decide (w2 ≤ 0))
+      if mk then (a1, a2, .localMin, true, true) else (a1, a2, .none, false, false)
+    else (a1, a2, .none, false, false)
+
+end Model
